@@ -43,5 +43,35 @@ def syncy_payloads(rnd, n=12):
     return out
 
 
+def special_int_payloads(rnd):
+    """payloads whose integer value is special: zero, all ones, multiples of 2^61-1 / 2^31-1 (CPython hash moduli)"""
+    out = [bytes(n) for n in (2, 3, 8, 19, 40)] + [b"\xff" * n for n in (2, 19)]
+    for mod in ((1 << 61) - 1, (1 << 31) - 1):
+        for mid in (1005, 1230, 999, 1077):
+            n = 25
+            hi = (mid << (n * 8 - 12))
+            v = hi + ((-hi) % mod)                  # smallest multiple of mod with this message number
+            if v >> (n * 8 - 12) == mid:
+                out.append(v.to_bytes(n, "big"))
+    return out
+
+
+def framelike_payloads(rnd):
+    """payloads that themselves look like an RTCM3 frame (0xD3, six zero bits, a length field equal to
+    len - 6): message numbers 3376..3379, with and without a consistent inner CRC"""
+    from .decode_rec import crc24q
+
+    out = []
+    for L in (6, 7, 9, 12, 25, 60, 262):
+        inner = L - 6
+        for mid_lo in (0, 1):
+            hdr = bytes([0xD3, ((inner >> 8) & 3), inner & 0xFF])
+            body = bytes([0x3E, 0xD0][:inner]) + bytes(rnd.randrange(256) for _ in range(max(0, inner - 2)))
+            body = body[:inner]
+            tail = crc24q(hdr + body).to_bytes(3, "big") if mid_lo == 0 else bytes(rnd.randrange(256) for _ in range(3))
+            out.append(hdr + body + tail)
+    return out
+
+
 def log_files():
     return sorted(glob.glob(os.path.join(REPO, "tests", "*.log")) + glob.glob(os.path.join(REPO, "tests", "*.bin")))
